@@ -160,18 +160,21 @@ Section SivMutation.
       inversion He'. apply (siv_raw_enc_inv aes aes_len) in Er; [|exact Hn']. destruct Er as [_ [_ ->]]. reflexivity.
   Qed.
 
-  (* contrapositive with an explicit "no fresh valid tag" premise *)
-  Theorem siv_mutant_rejected_without_forgery prefix key nonce p ad c c' ad' :
-    length nonce = 12%nat ->
-    siv_enc aes prefix key nonce p ad = Ok c -> (c', ad') <> (c, ad) ->
-    (forall nonce' p', length nonce' = 12%nat -> (nonce', p', ad') <> (nonce, p, ad) ->
-       c' <> prefix ++ nonce' ++ sctr (dk_enc key nonce') (tagf key nonce' p' ad') p' ++ tagf key nonce' p' ad') ->
+  (* per-instance rejection: for the fields c' parses to, a presented tag different from the
+     recomputed one is an error *)
+  Theorem siv_wrong_tag_rejected prefix key nonce' ct' tag' c' ad' :
+    c' = prefix ++ nonce' ++ ct' ++ tag' -> length nonce' = 12%nat -> length tag' = 16%nat ->
+    tagf key nonce' (sctr (dk_enc key nonce') tag' ct') ad' <> tag' ->
     siv_dec aes prefix key c' ad' = Err.
   Proof.
-    intros Hn He Hne Hnf.
-    destruct (siv_dec aes prefix key c' ad') as [p'| |] eqn:Hd; [exfalso|reflexivity|exfalso].
-    - destruct (siv_accepted_mutant_is_tag_forgery prefix key nonce p ad c c' ad' p' Hn He Hne Hd) as [n' [H1 [H2 H3]]].
-      exact (Hnf n' p' H1 H2 H3).
-    - exact (siv_dec_no_panic aes aes_len _ _ _ _ Hd).
+    intros -> Hn Ht Hneq. rewrite (siv_dec_prefix aes aes_len). unfold siv_raw_dec_canon.
+    destruct (_ && _ && _)%bool; [|reflexivity].
+    rewrite !app_length, Hn, Ht.
+    rewrite (firstn_app_len 12) by (symmetry; exact Hn).
+    rewrite (skipn_app_len 12) by (symmetry; exact Hn).
+    replace (12 + (length ct' + 16) - 28)%nat with (length ct') by lia. rewrite firstn_app_exact.
+    replace (nonce' ++ ct' ++ tag') with ((nonce' ++ ct') ++ tag') by (rewrite <- app_assoc; reflexivity).
+    rewrite skipn_app_len by (rewrite app_length; lia).
+    destruct (beq _ tag') eqn:Eb; [|reflexivity]. apply beq_eq in Eb. contradiction.
   Qed.
 End SivMutation.
